@@ -124,6 +124,12 @@ def isReWs (c : Int) : Bool :=
 /-- `re.sub(r'\s', ' ', text)` -/
 def subWs (text : List Int) : List Int := text.map (fun c => if isReWs c then 32 else c)
 
+/-- `text.split(c)` for a one-character separator: never empty, one more part than separators -/
+def splitCodeAux (sep : Int) : List Int → List Int → List (List Int)
+  | cur, [] => [cur.reverse]
+  | cur, c :: r => if c = sep then cur.reverse :: splitCodeAux sep [] r else splitCodeAux sep (c :: cur) r
+def splitCode (sep : Int) (s : List Int) : List (List Int) := splitCodeAux sep [] s
+
 /-- the ASCII whitespace `bytearray.fromhex` skips between pairs -/
 def isAsciiWs (c : Int) : Bool := c = 32 || c = 9 || c = 10 || c = 11 || c = 12 || c = 13
 
